@@ -544,3 +544,107 @@ pub fn compare_with_dir(sh: &Shadow, dir: &Path) -> Result<(), String> {
 pub fn scratch(tag: &str) -> PathBuf {
 	crate::search::workdir(&format!("w{}-{}", std::process::id(), tag))
 }
+
+// ------------------------------------------------------------------ trace files (shared with the loom engine)
+
+fn put_str(out: &mut Vec<u8>, s: &str) {
+	out.extend_from_slice(&(s.len() as u32).to_le_bytes());
+	out.extend_from_slice(s.as_bytes());
+}
+
+pub fn ops_to_bytes(ops: &[Op]) -> Vec<u8> {
+	let mut out = vec![];
+	for op in ops {
+		match op {
+			Op::Create(p) => {
+				out.push(1);
+				put_str(&mut out, p);
+			},
+			Op::Trunc(p, l) => {
+				out.push(2);
+				put_str(&mut out, p);
+				out.extend_from_slice(&l.to_le_bytes());
+			},
+			Op::Write(p, o, d) | Op::Store(p, o, d) => {
+				out.push(if matches!(op, Op::Write(..)) { 3 } else { 4 });
+				put_str(&mut out, p);
+				out.extend_from_slice(&o.to_le_bytes());
+				out.extend_from_slice(&(d.len() as u32).to_le_bytes());
+				out.extend_from_slice(d);
+			},
+			Op::Unlink(p) => {
+				out.push(5);
+				put_str(&mut out, p);
+			},
+			Op::Rename(a, b) => {
+				out.push(6);
+				put_str(&mut out, a);
+				put_str(&mut out, b);
+			},
+			Op::Sync(p) => {
+				out.push(7);
+				put_str(&mut out, p);
+			},
+			Op::Msync(p, o, l) => {
+				out.push(8);
+				put_str(&mut out, p);
+				out.extend_from_slice(&o.to_le_bytes());
+				out.extend_from_slice(&l.to_le_bytes());
+			},
+			Op::Mark(m) => {
+				out.push(9);
+				put_str(&mut out, m);
+			},
+		}
+	}
+	out
+}
+
+pub fn ops_from_bytes(b: &[u8]) -> Option<Vec<Op>> {
+	let mut pos = 0usize;
+	let mut ops = vec![];
+	fn take<'a>(b: &'a [u8], pos: &mut usize, n: usize) -> Option<&'a [u8]> {
+		if *pos + n > b.len() {
+			return None
+		}
+		let s = &b[*pos..*pos + n];
+		*pos += n;
+		Some(s)
+	}
+	fn u32_(b: &[u8], pos: &mut usize) -> Option<u32> {
+		Some(u32::from_le_bytes(take(b, pos, 4)?.try_into().ok()?))
+	}
+	fn u64_(b: &[u8], pos: &mut usize) -> Option<u64> {
+		Some(u64::from_le_bytes(take(b, pos, 8)?.try_into().ok()?))
+	}
+	fn str_(b: &[u8], pos: &mut usize) -> Option<String> {
+		let n = u32_(b, pos)? as usize;
+		String::from_utf8(take(b, pos, n)?.to_vec()).ok()
+	}
+	while pos < b.len() {
+		let t = b[pos];
+		pos += 1;
+		ops.push(match t {
+			1 => Op::Create(str_(b, &mut pos)?),
+			2 => Op::Trunc(str_(b, &mut pos)?, u64_(b, &mut pos)?),
+			3 | 4 => {
+				let p = str_(b, &mut pos)?;
+				let o = u64_(b, &mut pos)?;
+				let n = u32_(b, &mut pos)? as usize;
+				let d = take(b, &mut pos, n)?.to_vec();
+				if t == 3 {
+					Op::Write(p, o, d)
+				} else {
+					Op::Store(p, o, d)
+				}
+			},
+			5 => Op::Unlink(str_(b, &mut pos)?),
+			6 => Op::Rename(str_(b, &mut pos)?, str_(b, &mut pos)?),
+			7 => Op::Sync(str_(b, &mut pos)?),
+			8 => Op::Msync(str_(b, &mut pos)?, u64_(b, &mut pos)?, u64_(b, &mut pos)?),
+			9 => Op::Mark(str_(b, &mut pos)?),
+			_ => return None,
+		});
+	}
+	Some(ops)
+}
